@@ -107,6 +107,29 @@ def build():
         ensures=['implies(sql_or_result is not None, len(flattened) == len(old(flattened)) + 1)'],
         note='add_sql flattens its argument first: a result object passed here gets its own to_sql() (own rebuild)')
 
+    for meth in ('add_pre_sql', 'add_post_sql'):
+        w.contract(
+            'SQLResult.%s' % meth, module=SQLRES, serves=['C18'],
+            params={'self': K.Ref('SQLResult'), 'sql_or_result': GEN}, modifies=['flattened'],
+            abstract={'self.pre_sql += ': ['_sql = self.normalize_sql(sql_or_result)'],
+                      'self.post_sql += ': ['_sql = self.normalize_sql(sql_or_result)']},
+            ensures=['implies(sql_or_result is not None, len(flattened) == len(old(flattened)) + 1)'],
+            note='%s flattens its argument first: a result object passed here gets its own to_sql() (own rebuild); '
+                 'the statement lists themselves are not modelled' % meth)
+        del w.contracts['SQLResult.%s' % meth].abstract['self.post_sql += ' if meth == 'add_pre_sql' else 'self.pre_sql += ']
+    # index / uniqueness changes of a column: the backend rules go INTO the result (merged into the table's single
+    # rebuild); nothing is flattened on the way
+    for helper in ('change_column_attr_unique', 'change_column_attr_db_index'):
+        w.stub('BaseEvolutionOperations.%s' % helper,
+               params={'self': K.Ref('BaseEvolutionOperations'), 'model': K.Ref('MockModel'), 'mutation': K.Atom('Mutation'),
+                       'field': K.Ref('Field'), 'old_value': K.Bool, 'new_value': K.Bool}, **gen)
+    w.contract(
+        'BaseEvolutionOperations.change_column_attrs_db_index_unique', module=COMMON, serves=['C18'],
+        params={'self': K.Ref('BaseEvolutionOperations'), 'model': K.Ref('MockModel'), 'mutation': K.Atom('Mutation'),
+                'field': K.Ref('Field'), 'old_db_index': K.Bool, 'new_db_index': K.Bool, 'old_unique': K.Bool,
+                'new_unique': K.Bool},
+        returns=K.Ref('SQLResult'), raises={'Exception': True}, modifies=['flattened'],
+        ensures=['fresh_ref(result)', 'flattened == old(flattened)'], ensures_exc=['flattened == old(flattened)'])
     w.contract(
         'BaseEvolutionOperations.generate_table_ops_sql', module=COMMON, serves=['C18'],
         params={'self': K.Ref('BaseEvolutionOperations'), 'mutator': K.Ref('ModelMutator'),
